@@ -4,6 +4,7 @@
 # namespace (the real /repo, evidence/ and replays/ are untouched) and runs the given checks.
 set -u
 PATCH="$(readlink -f "$1")"; shift
+SLOT="${SLOT:-0}"
 WT=/tmp/mut-wt-$$
 SCR=/dev/shm/mut-scr-$$
 git -C /repo worktree add -q --detach "$WT" HEAD || exit 2
@@ -13,7 +14,7 @@ TIER="${TIER:-quick}"
 unshare -m bash -c "
   mount --bind '$WT' /repo && mount --bind '$SCR/evidence' /verif/evidence && mount --bind '$SCR/replays' /verif/replays || exit 2
   cd /verif
-  export CARGO_TARGET_DIR=/verif/.target-mut VERIF_SCHED_TARGET=/verif/.target-sched-mut VERIF_CLI_TARGET=/verif/.target-mut/repo-cli
+  export CARGO_TARGET_DIR=/verif/.target-mut$SLOT VERIF_SCHED_TARGET=/verif/.target-sched-mut$SLOT VERIF_CLI_TARGET=/verif/.target-mut$SLOT/repo-cli
   for id in $*; do
     echo \"=== \$id ($TIER) on mutant\"
     ./check \$id --tier $TIER 2>&1 | grep -E 'VIOLATION|violation:|KNOWN-FINDING|MACHINERY|unknown_violations|error' | cut -c1-260 | head -12
